@@ -36,6 +36,11 @@ Inductive path (wires : list wire) : nat -> nat -> Prop :=
 (* the WiringErrors by which execute rejects what a handler returned *)
 Definition output_rejection (e : err) : Prop := e = EPortsMismatch \/ e = EOutType \/ e = EOutInteg.
 
+(* raises that a diagram assembled through connect can never produce: a wire naming a port
+   that does not exist, and the executor's per-wire runtime type / integrity checks *)
+Definition dead_err (e : err) : bool :=
+  match e with EKeyError | ETypeMismatch | EIntegViol => true | _ => false end.
+
 Definition has_handler (handlers : nat -> option handler) (m : nat) : bool := is_some (handlers m).
 
 (* ---------------------------------------------------------------------- *)
@@ -649,9 +654,9 @@ Definition Inv (st : state) : Prop := Inv0 st /\ wire_inv st.
 Definition ErrInv (e : err) (calls : list call) : Prop :=
   Forall (call_ok (Some e)) calls /\ NoDup (map fst calls) /\
   (e = EHandlerRaised -> exists c h, In c calls /\ handlers (fst c) = Some h /\ h (snd c) = HRaise) /\
-  e <> EKeyError.
+  dead_err e = false.
 
-Lemma Inv0_ErrInv st e : Inv0 st -> e <> EHandlerRaised -> e <> EKeyError -> ErrInv e (s_calls st).
+Lemma Inv0_ErrInv st e : Inv0 st -> e <> EHandlerRaised -> dead_err e = false -> ErrInv e (s_calls st).
 Proof.
   intros I H1 H2. split; [|split; [|split]]; auto.
   - eapply Forall_impl; [|apply (i_calls _ I)]. intros c. apply call_ok_weaken.
@@ -678,23 +683,25 @@ Lemma deliver_spec outs st w md :
   | Ok st' => Inv0 st' /\ s_order st' = s_order st /\ s_runs st' = s_runs st /\
               s_calls st' = s_calls st /\ get (s_mi st) (w_dm w) (w_dp w) = None /\
               (forall a b, get (s_mi st') a b = None -> get (s_mi st) a b = None)
-  | Err e c => c = s_calls st /\ e <> EHandlerRaised /\ e <> EKeyError
+  | Err e c => c = s_calls st /\ e <> EHandlerRaised /\ dead_err e = false
   end.
 Proof.
   intros I Hw Hmd Houts. unfold deliver.
   destruct (nth_error outs (w_sp w)) as [v|] eqn:Hv.
-  2:{ repeat split; discriminate. }
+  2:{ split; [reflexivity|split; [discriminate|reflexivity]]. }
   destruct (wire_ports w Hw) as (ms & mdd & s & d & Hms & Hs & Hmdd & Hd & Hty & Hil).
   rewrite Hmd in Hms. inversion Hms; subst ms. clear Hms.
   assert (Hip : in_port mods (w_dm w) (w_dp w) = Some d) by (unfold in_port; now rewrite Hmdd).
   rewrite Hip.
-  destruct (enforce && negb (dt_eqb (tv_dt v) (fst d))); [repeat split; discriminate|].
-  destruct (enforce && il_ltb (tv_il v) (snd d)); [repeat split; discriminate|].
-  destruct (get (s_mi st) (w_dm w) (w_dp w)) eqn:Hg; [repeat split; discriminate|].
   assert (Hvt : typed v d).
   { destruct Houts as [Hex| ->]; [|destruct (w_sp w); discriminate].
     destruct (Forall2_nth_l _ _ _ Hex _ _ Hv) as (y & Hy & [Hy1 Hy2]).
     rewrite Hs in Hy. inversion Hy; subst y. split; [congruence|]. rewrite Hy2. exact Hil. }
+  (* the per-wire runtime checks cannot fire: the value carries the source port's label *)
+  assert (E1 : dt_eqb (tv_dt v) (fst d) = true) by (apply dt_eqb_eq; apply Hvt).
+  assert (E2 : il_ltb (tv_il v) (snd d) = false) by (apply il_ltb_ge; apply Hvt).
+  rewrite E1, E2. cbn [negb]. rewrite !andb_false_r.
+  destruct (get (s_mi st) (w_dm w) (w_dp w)) eqn:Hg; [split; [reflexivity|split; [discriminate|reflexivity]]|].
   split; [|repeat split; auto].
   - destruct I. constructor; cbn [set_mi s_mi s_order s_runs s_calls]; auto.
     + now apply put_shape.
@@ -711,7 +718,7 @@ Lemma deliver_all_spec outs md m :
               s_calls st' = s_calls st /\
               (forall w, In w ws -> get (s_mi st) (w_dm w) (w_dp w) = None) /\
               (forall a b, get (s_mi st') a b = None -> get (s_mi st) a b = None)
-  | Err e c => c = s_calls st /\ e <> EHandlerRaised /\ e <> EKeyError
+  | Err e c => c = s_calls st /\ e <> EHandlerRaised /\ dead_err e = false
   end.
 Proof.
   intros Hmd Houts. induction ws as [|w rest IH]; intros st Hws I; cbn [deliver_all].
@@ -743,7 +750,7 @@ Lemma finish_spec m md st st1 outs :
   nth_error mods m = Some md -> (Forall2 exact outs (m_out md) \/ outs = []) ->
   match deliver_all mods enforce outs (outgoing wires m) st1 with
   | Ok st' => Inv st' /\ s_order st' = s_order st ++ [m]
-  | Err e c => c = s_calls st1 /\ e <> EHandlerRaised /\ e <> EKeyError
+  | Err e c => c = s_calls st1 /\ e <> EHandlerRaised /\ dead_err e = false
   end.
 Proof.
   intros [I W] I1 Ho Hnm Hmd Houts.
@@ -802,7 +809,7 @@ Proof.
       * intros ->. apply call_outputs_err in Hc. destruct Hc as [[_ Hc]|Hc].
         -- exists (m, r), h. rewrite in_app_iff. cbn. auto.
         -- destruct Hc as [Hc|[Hc|Hc]]; discriminate.
-      * apply call_outputs_err in Hc. destruct Hc as [[He _]|[He|[He|He]]]; rewrite He; discriminate.
+      * apply call_outputs_err in Hc. destruct Hc as [[He _]|[He|[He|He]]]; rewrite He; reflexivity.
     + assert (I1 : Inv0 (mkSt (s_mi st) (s_order st ++ [m]) (s_runs st ++ [(m, r, outs)])
                               (s_calls st ++ [(m, r)]))).
       { apply Hbase.
@@ -872,7 +879,7 @@ Proof.
     destruct (pass mods wires handlers enforce (indexed mods) st false) as [[st1 b1]|e c]; auto.
     destruct H as (I1 & Hle & Hb). destruct b1.
     + destruct (Hb eq_refl) as [Hb'|Hb']; [discriminate|]. apply IH; auto. lia.
-    + destruct I1 as [I1 _]. apply (Inv0_ErrInv _ _ I1); discriminate.
+    + destruct I1 as [I1 _]. apply (Inv0_ErrInv _ _ I1); [discriminate|reflexivity].
   - apply Nat.ltb_ge in Hlt. exists st. auto.
 Qed.
 
@@ -916,14 +923,14 @@ Lemma execute_spec ext :
 Proof.
   unfold execute.
   pose proof (ext_mods_spec ext (init_inputs mods) init_shape init_typed) as He.
-  assert (Hnil : forall e, e <> EHandlerRaised -> e <> EKeyError -> ErrInv e []).
+  assert (Hnil : forall e, e <> EHandlerRaised -> dead_err e = false -> ErrInv e []).
   { intros e H1 H2. split; [constructor|split; [constructor|split; [intros E; contradiction|auto]]]. }
   destruct (ext_mods mods (init_inputs mods) ext) as [e|mi].
-  { unfold ext_err in He. apply Hnil; intros ->; destruct He as [He|[He|[He|He]]]; discriminate He. }
+  { unfold ext_err in He. destruct He as [He|[He|[He|He]]]; rewrite He; apply Hnil; (discriminate || reflexivity). }
   destruct He as (Hs & Ht & _).
   destruct (preflight mods wires handlers mi) as [e|] eqn:Hp.
   { apply preflight_some in Hp. unfold preflight_err in Hp.
-    apply Hnil; intros ->; destruct Hp as [Hp|[Hp|Hp]]; discriminate Hp. }
+    destruct Hp as [Hp|[Hp|Hp]]; rewrite Hp; apply Hnil; (discriminate || reflexivity). }
   apply loop_spec; [|cbn; lia].
   split.
   - constructor; cbn; auto; try constructor; intros; contradiction.
@@ -1038,7 +1045,7 @@ Lemma err_classify mods handlers e calls :
 Proof.
   intros (_ & _ & Hr & Hk). destruct e; try (left; reflexivity).
   - right. split; auto. apply Hr. reflexivity.
-  - congruence.
+  - discriminate Hk.
 Qed.
 
 Lemma wire_mods_lt mods w : flows_ok mods w -> w_sm w < length mods /\ w_dm w < length mods.
@@ -1145,6 +1152,15 @@ Proof.
     rewrite (i_calls_order _ _ _ I). apply NoDup_filter. apply (i_nodup _ _ _ I).
   - destruct H as (_ & H & _). exact H.
   - contradiction.
+Qed.
+
+(* on a diagram assembled through connect the per-wire runtime checks never fire and no
+   wire names a missing port: _coerce_output and connect already guarantee what they test *)
+Lemma runtime_wire_checks_dead_proof out calls e :
+  execute mods wires handlers enforce ext = (out, calls) -> out = Raised e -> dead_err e = false.
+Proof.
+  intros E ->. pose proof (execute_spec mods wires handlers enforce Hacc ext) as H. rewrite E in H.
+  apply H.
 Qed.
 
 Lemma unschedulable_raises_proof :
